@@ -1,6 +1,10 @@
 import Arimaa.Props.C15
 import Arimaa.Lemmas.RsAgreeTHash
 import Arimaa.Lemmas.RsAgreeHash
+import Arimaa.Lemmas.RsAgreeShow
+import Arimaa.Lemmas.RsAgreeParse
+import Arimaa.Gen.Bridge.GameState_fmt
+import Arimaa.Gen.Bridge.GameState_from_str
 import Arimaa.Gen.Bridge.GameState_transposition_hash
 import Arimaa.Gen.Bridge.Zobrist_from_piece_board
 
@@ -28,9 +32,46 @@ theorem C15_value_of_ok {α : Type} {x : Res α} {p : Bool} {v w : α} (h : x = 
 /-- the agreement theorems C15 rests on, about the CURRENT functions, as one obligation -/
 theorem C15_code_agrees :
     (∀ s : GameState, GameState_transposition_hash s = Res.guard s.transpositionHashPanics s.transpositionHash) ∧
-    (∀ (b : Board) (p1 : Bool) (step : Nat), Zobrist_from_piece_board b p1 step = Res.guard (zFromPieceBoardPanics b step) (zFromPieceBoard b p1 step)) :=
+    (∀ (b : Board) (p1 : Bool) (step : Nat), Zobrist_from_piece_board b p1 step = Res.guard (zFromPieceBoardPanics b step) (zFromPieceBoard b p1 step)) ∧
+    (∀ (s : GameState) (f : List Char), GameState_fmt s f = .ok (f ++ showState s)) :=
   ⟨(by simp only [bridge_GameState_transposition_hash]; exact RsAgree.transposition_hash_eq),
-   (by simp only [bridge_Zobrist_from_piece_board]; exact RsAgree.from_piece_board_eq)⟩
+   (by simp only [bridge_Zobrist_from_piece_board]; exact RsAgree.from_piece_board_eq),
+   (by simp only [bridge_GameState_fmt]; exact RsAgree.game_state_fmt)⟩
 
+
+/-- the regenerated diagram parser (`FromStr for GameState`: `split('|')`, the header through `matchHeader`, the two
+nested loops with their early `Err`, `parse()?`) agrees with the hand-written `parseState` on every text shorter than
+2^60 characters (the cell index is a `usize` in the code) -/
+theorem C15_code_parser_agrees (t : List Char) (hlen : t.length < 2 ^ 60) :
+    GameState_from_str t = RsAgree.ofOutcome (parseState t) := by
+  simp only [bridge_GameState_from_str]
+  exact RsAgree.game_state_from_str t hlen
+
+/-- **C15 (no crash) for the code as it is now**: the regenerated parser returns `Ok` or `Err` on EVERY text -
+oversized or non-ASCII move numbers, any number of rows and cells, stray bars, non-ASCII cells -/
+theorem C15_code_no_panic (t : List Char) (hlen : t.length < 2 ^ 60) : GameState_from_str t ≠ .panic := by
+  rw [C15_code_parser_agrees t hlen]
+  have h := (C15_no_panic t).1
+  cases hp : parseState t <;> simp_all [RsAgree.ofOutcome]
+
+/-- **C15 (round trip) for the code as it is now**: parsing, with the regenerated parser, the diagram the
+regenerated `Display` prints for a state with a well-formed board returns `Ok` of a state with the same board, side
+and move number, which prints identically -/
+theorem C15_code_roundtrip (s : GameState) (hw : WF s.board) (hn : s.moveNo ≤ usizeMax) (text : List Char)
+    (hshow : GameState_fmt s [] = .ok text) (hlen : text.length < 2 ^ 60) :
+    ∃ s', GameState_from_str text = .ok (some s') ∧ s'.board = s.board ∧ s'.p1Turn = s.p1Turn ∧
+      s'.moveNo = s.moveNo ∧ GameState_fmt s' [] = .ok text := by
+  simp only [bridge_GameState_fmt, RsAgree.game_state_fmt, List.nil_append, Res.ok.injEq] at hshow
+  subst hshow
+  obtain ⟨s', hp, hb, ht, hm, hs⟩ := C15_roundtrip s hw hn
+  refine ⟨s', ?_, hb, ht, hm, ?_⟩
+  · rw [C15_code_parser_agrees _ hlen, hp]; rfl
+  · simp only [bridge_GameState_fmt, RsAgree.game_state_fmt, List.nil_append, hs]
+
+/-- **C15 (printing side) for the code as it is now**: the regenerated `Display for GameState` never panics and
+appends exactly the diagram `showState s` the round-trip theorems are about (the diagram PARSER, `FromStr for
+GameState` with its regular expression, is not translated: it stays hand-modelled and tied by the text campaigns) -/
+theorem C15_code_show (s : GameState) : GameState_fmt s [] = .ok (showState s) := by
+  simp only [bridge_GameState_fmt, RsAgree.game_state_fmt, List.nil_append]
 
 end Arimaa
